@@ -53,7 +53,7 @@ def main():
         "property": prop,
         "origin": "independent sub-agent (round %s) given only the property text and a scratch worktree of /repo" % a.round,
         "summary": agent_meta.get("summary"),
-        "needs_to_manifest": agent_meta.get("needs_to_manifest"),
+        "needs_to_manifest": agent_meta.get("needs_to_manifest") or agent_meta.get("needs"),
         "files": agent_meta.get("files"),
         "confirmed": {
             "how": "rv/selftest/evaluate.py on a scratch copy of /repo (HEAD %s): patch applied with git apply; repository test suite; "
